@@ -528,8 +528,11 @@ package tacquito
 //@   loop 1 invariant forall j int :: 0 <= j && j < len(r.writers) ==> r.writers[j] != nil
 
 //@ func (c *crypter) read() (res *Packet, err error)
+//@   ghostinc reads
 //@   requires c != nil && c.Conn != nil && c.Reader != nil && !c.proxy
-//@   modifies ghost.inPos, ghost.nwrites, ghost.written, ghost.md5acc
+//@   requires[C17] ghost.armed == 1 || ghost.dead == 1
+//@   modifies ghost.inPos, ghost.nwrites, ghost.written, ghost.md5acc, ghost.armed
+//@   ensures[C17] ghost.armed == 0
 //@   ensures[C05,C07] err == nil ==> res != nil && res.Header != nil && valid.Header(*res.Header)
 //@   ensures[C05] let p0 = old(ghost.inPos) in let L = instream(p0+8)*16777216 + instream(p0+9)*65536 + instream(p0+10)*256 + instream(p0+11) in
 //@        (err == nil ==> (L <= 65536 && ghost.inPos == p0 + 12 + L && len(res.Body) == L && res.Header.Length == L))
@@ -546,3 +549,76 @@ package tacquito
 //@        (forall i int :: {res.Body[i]} 0 <= i && i < len(res.Body) ==> res.Body[i] == xor8(instream(p0 + 12 + i), padAt(*res.Header, c.secret, i))))
 //@   ensures[C07,C19] err == nil ==> ghost.nwrites == old(ghost.nwrites)
 //@   ensures[C07,C19] ghost.nwrites == old(ghost.nwrites) || ghost.nwrites == old(ghost.nwrites) + 1
+
+// ---------------------------------------------------------------------------
+// sessions.go
+// ---------------------------------------------------------------------------
+// The abstract view of the table is the Go map itself (has / [] / len). The C20
+// invariant is "sessionsActive - len(known)" constant across every operation.
+
+//@ func (s *sessions) get(h Header) (res Handler, err error)
+//@   requires s != nil && wfSessions(s)
+//@   modifies s.known, ghost.gauge
+//@   ensures wfSessions(s)
+//@   ensures[C08] err == nil ==> h.SeqNo mod 2 == 1
+//@   ensures[C08] (err == nil && old(has(s.known, h.SessionID))) ==> h.SeqNo > old(s.known[h.SessionID].header.SeqNo)
+//@   ensures[C08] (err == nil && old(has(s.known, h.SessionID))) ==> res == old(s.known[h.SessionID].Handler)
+//@   ensures[C08] (err == nil && !old(has(s.known, h.SessionID))) ==> res == nil
+//@   ensures[C08,C09] sameExcept(s.known, h.SessionID)
+//@   ensures[C08,C09] err == nil ==> has(s.known, h.SessionID) == old(has(s.known, h.SessionID)) && len(s.known) == old(len(s.known))
+//@   ensures[C20] ghost.gauge[sessionsActive] - len(s.known) == old(ghost.gauge[sessionsActive] - len(s.known))
+//@   ensures[C20] ghost.gauge == upd(old(ghost.gauge), sessionsActive, ghost.gauge[sessionsActive])
+
+//@ func (s *sessions) set(h Header, n Handler)
+//@   requires s != nil && wfSessions(s)
+//@   modifies s.known, ghost.gauge
+//@   ensures wfSessions(s)
+//@   ensures[C08] has(s.known, h.SessionID) && s.known[h.SessionID].header == h && s.known[h.SessionID].Handler == n
+//@   ensures[C08,C09] sameExcept(s.known, h.SessionID)
+//@   ensures[C20] !old(has(s.known, h.SessionID)) ==> ghost.gauge[sessionsActive] - len(s.known) == old(ghost.gauge[sessionsActive] - len(s.known))
+//@   ensures[C20] ghost.gauge == upd(old(ghost.gauge), sessionsActive, ghost.gauge[sessionsActive])
+
+//@ func (s *sessions) update(h Header, n Handler)
+//@   requires s != nil && wfSessions(s)
+//@   modifies s.known, ghost.gauge
+//@   ensures wfSessions(s)
+//@   ensures[C08] old(has(s.known, h.SessionID)) ==> has(s.known, h.SessionID) && s.known[h.SessionID].header == h && s.known[h.SessionID].Handler == n
+//@   ensures[C08,C09] sameExcept(s.known, h.SessionID) && len(s.known) == old(len(s.known))
+//@   ensures[C20] ghost.gauge == old(ghost.gauge)
+
+//@ func (s *sessions) delete(session SessionID)
+//@   requires s != nil && wfSessions(s)
+//@   modifies s.known, ghost.gauge
+//@   ensures wfSessions(s)
+//@   ensures[C08] !has(s.known, session)
+//@   ensures[C08,C09] sameExcept(s.known, session)
+//@   ensures[C20] ghost.gauge[sessionsActive] - len(s.known) == old(ghost.gauge[sessionsActive] - len(s.known))
+//@   ensures[C20] ghost.gauge == upd(old(ghost.gauge), sessionsActive, ghost.gauge[sessionsActive])
+
+//@ func (s *sessions) close()
+//@   requires s != nil && wfSessions(s)
+//@   modifies ghost.gauge
+//@   ensures[C20] ghost.gauge[sessionsActive] == old(ghost.gauge[sessionsActive]) - len(s.known)
+//@   ensures[C20] ghost.gauge == upd(old(ghost.gauge), sessionsActive, ghost.gauge[sessionsActive])
+//@   loop 1 invariant true
+
+// ---------------------------------------------------------------------------
+// server.go
+// ---------------------------------------------------------------------------
+
+//@ func (s *Server) handle(ctx context.Context, c *crypter, h Handler)
+//@   requires s != nil && s.loggerProvider != nil && ctx != nil && h != nil
+//@   requires c != nil && c.Conn != nil && c.Reader != nil && !c.proxy
+//@   modifies ghost.inPos, ghost.nwrites, ghost.written, ghost.md5acc, ghost.gauge, ghost.armed, ghost.dead, ghost.reads, ghost.handled, ghost.replies, ghost.closed
+//@   ensures[C07,C17] ghost.closed == old(ghost.closed) + 1
+//@   ensures[C07] ghost.handled - old(ghost.handled) <= ghost.reads - old(ghost.reads)
+//@   ensures[C07] ghost.replies - old(ghost.replies) == ghost.handled - old(ghost.handled)
+//@   ensures[C20] ghost.gauge[handlers] == old(ghost.gauge[handlers])
+//@   ensures[C20] ghost.gauge[sessionsActive] == old(ghost.gauge[sessionsActive])
+//@   loop 1 invariant wfSessions(sessionProvider) && fresh(sessionProvider)
+//@   loop 1 invariant[C08,C20] allLive(sessionProvider)
+//@   loop 1 invariant[C07] ghost.closed == old(ghost.closed)
+//@   loop 1 invariant[C07] ghost.reads - old(ghost.reads) == ghost.handled - old(ghost.handled)
+//@   loop 1 invariant[C07] ghost.replies - old(ghost.replies) == ghost.handled - old(ghost.handled)
+//@   loop 1 invariant[C20] ghost.gauge[handlers] == old(ghost.gauge[handlers])
+//@   loop 1 invariant[C20] ghost.gauge[sessionsActive] - len(sessionProvider.known) == old(ghost.gauge[sessionsActive])
